@@ -577,7 +577,7 @@ theorem tables_opPick {s : St} (h : Tables s) (call pn : Nat) (m : String) (ctx 
                 · exact h
                 · simp only
                   split
-                  · exact tables_finishPick (s := { s with rr := (s.rr + 1) % 2 ^ 32 })
+                  · exact tables_finishPick (s := { s with rr := (s.rr + 1) % 2 ^ 64 })
                       (tables_of_same h ⟨rfl, rfl, rfl, rfl, rfl, rfl, rfl⟩) _ _ _ _ _ _ _ _
                   · exact tables_of_same h ⟨rfl, rfl, rfl, rfl, rfl, rfl, rfl⟩
               · have h1 := tables_chooseSlot h c l key
